@@ -177,11 +177,11 @@ Definition fand_test (parts : list tree) : tree := T kBoolOp [] [[T kAnd [] []];
 Definition fguard_kw (g : option N) : tree :=
   kw id_guard_kw (match g with Some g' => T kConstant [SStr (fguard_id g'); SNone] [] | None => none_const end).
 Definition mk_param (x : N) : tree := T karg [SId x; SNone] [[]].
-Definition name_error_test : tree :=       (* not (E.name or '').startswith('_X5ix') *)
+Definition name_error_test : tree :=       (* not ("%s" % (E.name,)).startswith('_X5ix') *)
   T kUnaryOp [] [[T kNot [] []];
     [T kCall [] [[T kAttribute [SId id_startswith]
-                    [[T kBoolOp [] [[T kOr [] []];
-                        [T kAttribute [SId id_name] [[nm_load id_name_error]; [load_ctx]]; T kConstant [SStr id_empty_str; SNone] []]]];
+                    [[T kBinOp [] [[T kConstant [SStr id_fmt_s; SNone] []]; [T kMod [] []];
+                                   [T kTuple [] [[T kAttribute [SId id_name] [[nm_load id_name_error]; [load_ctx]]]; [load_ctx]]]]];
                      [load_ctx]]];
                  [T kConstant [SStr id_prefix_str; SNone] []]; []]]].
 
